@@ -288,4 +288,404 @@ example : readStreamF 2 [[4], [0], [0], [3], [7], [8], [9]] = ([[4, 0, 0, 3, 7, 
 /-- a body cut short is an error, not a message -/
 example : readStreamF 2 [[4, 0], [0, 3, 7], [8]] = ([], .err) := by decide
 
+
+/-! ### fourth round: the whole path for several messages, `Encode`'s side effect, the client-side read loop -/
+
+/-- **The composition** (the property's first sentence): messages within protocol limits whose encoding fits a
+packet (`< 2^24` bytes — the side condition of the composition), encoded, framed as Data packets, sent as one
+byte stream in ANY fragmentation: `GetNextMessage` hands over exactly one frame per message, the stream ends
+cleanly, and every frame decodes (packet decoder, then `message.Decode`) to exactly the carried fields of its
+message — for every reachable dictionary shape (`hdict`) and every zlib that is an inverse pair. -/
+theorem chain_roundtrip (E : Env) (ms : List Msg)
+    (hm : ∀ m ∈ ms, m.id < 2 ^ 64 ∧ m.route.length ≤ 255 ∧ (encodeMsg E m).length < 2 ^ 24)
+    (hdict : ∀ r c, E.routes r = some c → E.codes c = some r ∧ c < 65536)
+    (hz : ∀ d, E.inflate (E.deflate d) = some d)
+    (fs : List Bytes) (hfs : fs.flatten = (sendMsgs E ms).flatMap frameBytes) (fuel : Nat) (hf : ms.length < fuel) :
+    readStreamF fuel fs = ((sendMsgs E ms).map frameBytes, .closed) ∧
+    ∀ m ∈ ms, recvFrame E (frameBytes ⟨4, encodeMsg E m⟩) = .ok [.ok (carried m)] := by
+  have hv : ∀ p ∈ sendMsgs E ms, p.Valid := by
+    intro p hp
+    simp only [sendMsgs, List.mem_map] at hp
+    obtain ⟨m, hmm, rfl⟩ := hp
+    exact ⟨by simp, by simp, (hm m hmm).2.2⟩
+  constructor
+  · exact (fragmented_stream_roundtrip (sendMsgs E ms) hv fs hfs fuel (by simpa [sendMsgs] using hf)).1
+  · intro m hmm
+    obtain ⟨h1, h2, h3⟩ := hm m hmm
+    have hp : (⟨4, encodeMsg E m⟩ : Packet).Valid := ⟨by simp, by simp, h3⟩
+    have hd : decodePackets (frameBytes ⟨4, encodeMsg E m⟩) = .ok [⟨4, encodeMsg E m⟩] := by
+      have := decodePackets_frames [⟨4, encodeMsg E m⟩] (by intro q hq; simp only [List.mem_singleton] at hq; rw [hq]; exact hp)
+      simpa using this
+    unfold recvFrame
+    rw [hd]
+    simp only [List.map_cons, List.map_nil]
+    rw [decode_encode E m h1 h2 hdict hz]
+
+/-- non-vacuity: two messages, the stream delivered in three odd fragments -/
+example : readStreamF 3 [[4, 0, 0], [4, 2, 1, 1, 7, 4], [0, 0, 4, 6, 1, 97, 9]]
+      = ((sendMsgs E0 [⟨.notify, 0, [1], [7], false⟩, ⟨.push, 0, [97], [9], false⟩]).map frameBytes, .closed) ∧
+    ∀ m ∈ [(⟨.notify, 0, [1], [7], false⟩ : Msg), ⟨.push, 0, [97], [9], false⟩],
+      recvFrame E0 (frameBytes ⟨4, encodeMsg E0 m⟩) = .ok [.ok (carried m)] :=
+  chain_roundtrip E0 _ (by decide) (by simp [E0]) (by simp [E0]) _ (by decide) 3 (by decide)
+
+/-- **`Encode` as a method**: the bytes are those of the pure encoder; type, id, route and error flag of the
+caller's object are untouched; its `Data` is untouched unless compression is on and pays, in which case it is
+REPLACED by the deflated bytes (message_encoder.go: `message.Data = d`). -/
+theorem encodeM_spec (E : Env) (m : Msg) :
+    (encodeMsgM E m).1 = encodeMsg E m ∧
+    (encodeMsgM E m).2.typ = m.typ ∧ (encodeMsgM E m).2.id = m.id ∧ (encodeMsgM E m).2.route = m.route ∧
+    (encodeMsgM E m).2.err = m.err ∧
+    ((encodeMsgM E m).2.data = m.data ∨
+     (E.compress = true ∧ (E.deflate m.data).length < m.data.length ∧ (encodeMsgM E m).2.data = E.deflate m.data)) := by
+  refine ⟨rfl, rfl, rfl, rfl, rfl, ?_⟩
+  unfold encodeMsgM
+  by_cases hc : E.compress = true <;> by_cases hl : (E.deflate m.data).length < m.data.length <;> simp [hc, hl]
+
+/-- without payload compression `Encode` does not touch the message: it may be encoded any number of times -/
+theorem encodeM_pure_without_compression (E : Env) (m : Msg) (hc : E.compress = false) : (encodeMsgM E m).2 = m := by
+  unfold encodeMsgM
+  simp [hc]
+
+/-- a toy zlib that IS an inverse pair: eight 7s deflate to `[9]`, everything else gets a 0 in front -/
+def Ez : Env :=
+  { routes := fun _ => none, codes := fun _ => none,
+    deflate := fun d => if d = [7, 7, 7, 7, 7, 7, 7, 7] then [9] else 0 :: d,
+    inflate := fun b => match b with | [9] => some [7, 7, 7, 7, 7, 7, 7, 7] | 0 :: d => some d | _ => none,
+    compress := true }
+
+theorem Ez_inverse (d : Bytes) : Ez.inflate (Ez.deflate d) = some d := by
+  unfold Ez
+  by_cases h : d = [7, 7, 7, 7, 7, 7, 7, 7] <;> simp [h]
+
+/-- **Hazard of that side effect** (review finding 4; reproduced on the Go code by the `enc2` stream): a message
+object handed to `Encode` a SECOND time (retry, broadcast of one object) is encoded from the already deflated
+bytes; they do not shrink again, the gzip flag stays off, and the peer decodes the DEFLATED bytes as payload.
+The first encoding round-trips, the second does not — `decode_encode` is about one `Encode` per message object. -/
+theorem reencode_witness :
+    let m0 : Msg := ⟨.push, 0, [97], [7, 7, 7, 7, 7, 7, 7, 7], false⟩
+    decodeMsg Ez (encodeMsgM Ez m0).1 = .ok (carried m0) ∧
+    decodeMsg Ez (encodeMsgM Ez (encodeMsgM Ez m0).2).1 = .ok ⟨.push, 0, [97], [9], false⟩ := by decide
+
+/-- **Client-side read loop, reads that end at frame boundaries**: when every socket read brings whole frames
+(any number of them, valid packets), the packets `Client.readPackets` returns over all rounds are exactly the
+packets sent, in order, and the accumulating buffer is empty between rounds.
+(Special case of `client_readloop_roundtrip` below, which covers ANY fragmentation.) -/
+theorem client_readloop_roundtrip_partial (chunks : List (List Packet)) (hv : ∀ c ∈ chunks, ∀ p ∈ c, p.Valid) :
+    clientReadLoop [] (chunks.map fun c => c.flatMap frameBytes) = chunks.flatten := by
+  induction chunks with
+  | nil => rfl
+  | cons c cs ih =>
+    simp only [List.map_cons, clientReadLoop, List.flatten_cons]
+    rw [clientRead_frames c (hv c (by simp))]
+    simp only
+    rw [ih (fun d hd => hv d (by simp [hd]))]
+
+/-- **Client-side read loop, ANY fragmentation** (full strength): valid packets framed by the encoder and delivered
+by the socket in arbitrary reads (inside headers, inside bodies, several frames at once): over all rounds
+`Client.readPackets` returns exactly the packets sent, in order — each round returns the frames complete so far and
+keeps a strict prefix of the next frame in its accumulating buffer (`decodePackets_prefix`). -/
+theorem client_readloop_roundtrip (ps : List Packet) (hv : ∀ p ∈ ps, p.Valid) (fs : List Bytes)
+    (hfs : fs.flatten = ps.flatMap frameBytes) : clientReadLoop [] fs = ps :=
+  clientReadLoop_frames fs [] ps hv (by simpa using hfs) (fun p _ _ => by simp; omega) (fun _ => rfl)
+
+/-- every prefix of a stream of valid frames decodes, without error, to the packets of the frames complete in it -/
+theorem packet_decoder_prefix (ps : List Packet) (hv : ∀ p ∈ ps, p.Valid) (b tail : Bytes)
+    (hb : b ++ tail = ps.flatMap frameBytes) :
+    ∃ qs rs, ps = qs ++ rs ∧ decodePackets b = .ok qs := by
+  obtain ⟨qs, rs, _, h1, h2, _⟩ := decodePackets_prefix ps b tail hv hb
+  exact ⟨qs, rs, h1, h2⟩
+
+/-- non-vacuity: two frames in the first read, one in the second -/
+example : clientReadLoop [] [[4, 0, 0, 1, 7, 3, 0, 0, 0], [4, 0, 0, 2, 8, 9]] = [⟨4, [7]⟩, ⟨3, []⟩, ⟨4, [8, 9]⟩] :=
+  client_readloop_roundtrip_partial [[⟨4, [7]⟩, ⟨3, []⟩], [⟨4, [8, 9]⟩]] (by simp [Packet.Valid])
+
+/-- a read that ends inside the second frame's header: same packets (computed) -/
+example : clientReadLoop [] [[4, 0, 0, 1, 7, 3, 0], [0, 0, 4, 0, 0, 2, 8], [9]] = [⟨4, [7]⟩, ⟨3, []⟩, ⟨4, [8, 9]⟩] :=
+  client_readloop_roundtrip [⟨4, [7]⟩, ⟨3, []⟩, ⟨4, [8, 9]⟩] (by simp [Packet.Valid]) _ (by decide)
+example : clientReadLoop [] [[4, 0, 0, 1, 7, 3, 0], [0, 0, 4, 0, 0, 2, 8], [9]] = [⟨4, [7]⟩, ⟨3, []⟩, ⟨4, [8, 9]⟩] := by
+  simp [clientReadLoop, clientRead, decodePackets, decLoop, parseHeader, packetsLen, maxPacketSize]
+
+/-- **Route longer than 255 bytes** (review finding 6; outside the protocol limit, no error from `Encode`): the length
+byte is `len % 256`, so a 256-byte route is written with length 0 and the peer reads route "" with the route
+bytes in front of the payload — the reason for the hypothesis `route.length ≤ 255` of `decode_encode`. -/
+theorem route_too_long_witness (r : Bytes) (hr : r.length = 256) (d : Bytes) :
+    decodeMsg E0 (encodeMsg E0 ⟨.notify, 0, r, d, false⟩) = .ok ⟨.notify, 0, [], r ++ d, false⟩ := by
+  rw [decodeMsg_eq_PM]
+  simp [decodeMsgPM, encodeMsg, E0, b2n, MType.code, MType.ofCode, MType.hasId, MType.routable, hr]
+
+
+/-! ### fifth round: the session's read loop as a state machine (handshake, ack, data, heartbeat; several packets per frame) -/
+
+theorem processPacket_no_crash (E : Env) (j : Bytes → Bool) (st : SStatus) (p : Packet) :
+    processPacket E j st p ≠ .crash ∧
+    ∀ st' ev, processPacket E j st p = .cont st' ev → SessOut.crash ∉ ev ∧ SessOut.closed ∉ ev := by
+  have ht := decode_total E p.body
+  unfold processPacket
+  constructor
+  · repeat' split
+    all_goals (first | (intro h; cases h) | skip)
+    all_goals (rename_i h; exact absurd h ht)
+  · intro st' ev
+    repeat' split
+    all_goals (intro h; first | cases h | skip)
+    all_goals simp
+
+theorem processPackets_no_crash (E : Env) (j : Bytes → Bool) (ps : List Packet) : ∀ (st : SStatus),
+    (processPackets E j st ps).2.2 = false ∧ SessOut.crash ∉ (processPackets E j st ps).1 ∧
+      SessOut.closed ∉ (processPackets E j st ps).1 := by
+  induction ps with
+  | nil => intro st; simp [processPackets]
+  | cons p ps ih =>
+    intro st
+    obtain ⟨h1, h2⟩ := processPacket_no_crash E j st p
+    unfold processPackets
+    cases h : processPacket E j st p with
+    | cont st' ev =>
+      obtain ⟨a, b, c⟩ := ih st'
+      obtain ⟨d, e⟩ := h2 st' ev h
+      simp only [List.mem_append, not_or]
+      exact ⟨a, ⟨d, b⟩, ⟨e, c⟩⟩
+    | stop => simp
+    | crash => exact absurd h h1
+
+/-- **No client input brings the server down, whole session**: whatever frames a client sends from the first byte on
+(handshake or not, any JSON verdict, acks and data in any order, several packets per frame, garbage), in every
+status, under every dictionary and inflate behaviour, the reader goroutine never panics: the trace of the read
+loop never contains `crash`.  (Generalises `session_never_crashes`, which is the single-Data-packet case.) -/
+theorem session_script_never_crashes (E : Env) (j : Bytes → Bool) (frames : List Bytes) : ∀ (st : SStatus),
+    SessOut.crash ∉ sessFrames E j st frames := by
+  induction frames with
+  | nil => intro st; simp [sessFrames]
+  | cons f fs ih =>
+    intro st
+    unfold sessFrames
+    cases hd : decodePackets f with
+    | error e => simp
+    | ok ps =>
+      simp only
+      obtain ⟨a, b, _⟩ := processPackets_no_crash E j ps st
+      rcases hp : processPackets E j st ps with ⟨ev, o, c⟩
+      rw [hp] at a b
+      simp only at a b
+      subst a
+      cases o with
+      | some st' =>
+        simp only [List.mem_append, not_or]
+        exact ⟨b, ih st'⟩
+      | none =>
+        simp only [List.mem_append, not_or]
+        exact ⟨b, by simp⟩
+
+/-- the session is closed by the server only through a frame the packet decoder rejects, a handshake whose JSON is
+rejected, or a Data packet in status Working whose message does not decode: `closed` can only be the LAST event -/
+theorem session_script_closed_last (E : Env) (j : Bytes → Bool) (frames : List Bytes) : ∀ (st : SStatus),
+    SessOut.closed ∉ (sessFrames E j st frames).dropLast := by
+  induction frames with
+  | nil => intro st; simp [sessFrames]
+  | cons f fs ih =>
+    intro st
+    unfold sessFrames
+    cases hd : decodePackets f with
+    | error e => simp
+    | ok ps =>
+      simp only
+      obtain ⟨_, _, b⟩ := processPackets_no_crash E j ps st
+      rcases hp : processPackets E j st ps with ⟨ev, o, c⟩
+      rw [hp] at b
+      simp only at b
+      cases o with
+      | some st' =>
+        simp only
+        intro hmem
+        by_cases hne : sessFrames E j st' fs = []
+        · rw [hne, List.append_nil] at hmem
+          exact b ((List.dropLast_sublist _).subset hmem)
+        · rw [List.dropLast_append_of_ne_nil hne] at hmem
+          rcases List.mem_append.mp hmem with h | h
+          · exact b h
+          · exact ih st' h
+      | none =>
+        cases c <;> simp only [List.dropLast_concat] <;> exact b
+
+/-- **status logic of `processPacket`**: a Data packet before the handshake was acknowledged is ignored whatever its
+bytes (no event, no close, status unchanged); a HandshakeAck puts the session into Working from ANY status (a client
+may skip the handshake packet); a Handshake packet closes the session exactly when its JSON body is rejected. -/
+theorem session_status_logic (E : Env) (j : Bytes → Bool) (st : SStatus) (body : Bytes) :
+    (st.code < 3 → processPacket E j st ⟨4, body⟩ = .cont st []) ∧
+    processPacket E j st ⟨2, body⟩ = .cont .working [] ∧
+    (processPacket E j st ⟨1, body⟩ = .stop ↔ j body = false) ∧
+    processPacket E j st ⟨3, body⟩ = .cont st [] := by
+  refine ⟨?_, ?_, ?_, ?_⟩
+  · intro h; simp [processPacket, h]
+  · simp [processPacket]
+  · cases hj : j body <;> simp [processPacket, hj]
+  · simp [processPacket]
+
+theorem sessFrames_working_msgs (E : Env) (j : Bytes → Bool) (ms : List Msg)
+    (hm : ∀ m ∈ ms, m.id < 2 ^ 64 ∧ m.route.length ≤ 255 ∧ (encodeMsg E m).length < 2 ^ 24)
+    (hdict : ∀ r c, E.routes r = some c → E.codes c = some r ∧ c < 65536)
+    (hz : ∀ d, E.inflate (E.deflate d) = some d) :
+    sessFrames E j .working ((sendMsgs E ms).map frameBytes)
+      = ms.map fun m => .delivered ((carried m).id % 2 ^ 32) (carried m).route m.data := by
+  induction ms with
+  | nil => simp [sendMsgs, sessFrames]
+  | cons m ms ih =>
+    obtain ⟨h1, h2, h3⟩ := hm m (by simp)
+    have hp : (⟨4, encodeMsg E m⟩ : Packet).Valid := ⟨by simp, by simp, h3⟩
+    have hd : decodePackets (frameBytes ⟨4, encodeMsg E m⟩) = .ok [⟨4, encodeMsg E m⟩] := by
+      have := decodePackets_frames [⟨4, encodeMsg E m⟩] (by intro q hq; simp only [List.mem_singleton] at hq; rw [hq]; exact hp)
+      simpa using this
+    have ih' := ih (fun x hx => hm x (by simp [hx]))
+    simp only [sendMsgs, List.map_cons] at ih' ⊢
+    unfold sessFrames
+    rw [hd]
+    simp only [processPackets, processPacket, SStatus.code, decode_encode E m h1 h2 hdict hz]
+    simp only [List.map_map] at ih'
+    simp [ih']
+    rfl
+
+/-- **A regular session delivers everything**: handshake (JSON accepted), ack, then any number of messages within
+protocol limits, each encoded and framed as a Data packet: the owner is handed every message, in order, with
+`ClientReqId = uint32(ID)`, route and payload; the session stays open.  (Generalises `session_delivers_encoded`.) -/
+theorem session_script_delivers (E : Env) (j : Bytes → Bool) (hs : Bytes) (hj : j hs = true) (hl : hs.length < 2 ^ 24)
+    (ms : List Msg)
+    (hm : ∀ m ∈ ms, m.id < 2 ^ 64 ∧ m.route.length ≤ 255 ∧ (encodeMsg E m).length < 2 ^ 24)
+    (hdict : ∀ r c, E.routes r = some c → E.codes c = some r ∧ c < 65536)
+    (hz : ∀ d, E.inflate (E.deflate d) = some d) :
+    sessFrames E j .start (frameBytes ⟨1, hs⟩ :: frameBytes ⟨2, []⟩ :: (sendMsgs E ms).map frameBytes)
+      = ms.map fun m => .delivered ((carried m).id % 2 ^ 32) (carried m).route m.data := by
+  have d1 : decodePackets (frameBytes ⟨1, hs⟩) = .ok [⟨1, hs⟩] := by
+    have := decodePackets_frames [⟨1, hs⟩] (by intro q hq; simp only [List.mem_singleton] at hq; rw [hq]; exact ⟨by simp, by simp, hl⟩)
+    simpa using this
+  have d2 : decodePackets (frameBytes ⟨2, []⟩) = .ok [⟨2, []⟩] := by
+    have := decodePackets_frames [⟨2, []⟩] (by intro q hq; simp only [List.mem_singleton] at hq; rw [hq]; exact ⟨by simp, by simp, by simp⟩)
+    simpa using this
+  unfold sessFrames
+  rw [d1]
+  simp only [processPackets, processPacket, hj]
+  unfold sessFrames
+  rw [d2]
+  simp only [processPackets, processPacket]
+  simpa using sessFrames_working_msgs E j ms hm hdict hz
+
+/-- non-vacuity: `{}` handshake, ack, one notify -/
+example : sessFrames E0 (fun _ => true) .start (frameBytes ⟨1, [123, 125]⟩ :: frameBytes ⟨2, []⟩ ::
+      (sendMsgs E0 [⟨.notify, 0, [97], [9], false⟩]).map frameBytes) = [.delivered 0 [97] [9]] :=
+  session_script_delivers E0 _ _ rfl (by decide) _ (by decide) (by simp [E0]) (by simp [E0])
+
+
+/-! ### dictionary growth between encode and decode; checked accesses of the packet layer -/
+
+/-- **The dictionary may grow between `Encode` and `Decode`** (it is a process global; `SetDictionary` only ever adds
+entries): a message encoded under dictionary/zlib `E` decodes to its carried fields under ANY later environment `E'`
+whose code table extends `E`'s and whose inflate inverts `E`'s deflate — also when the route was spelled out at
+encode time and has entered the dictionary since (the compress bit travels in the flag byte). -/
+theorem decode_encode_dictionary_growth (E E' : Env) (m : Msg)
+    (hid : m.id < 2 ^ 64) (hrl : m.route.length ≤ 255)
+    (hdict : ∀ r c, E.routes r = some c → E.codes c = some r ∧ c < 65536)
+    (hgrow : ∀ c r, E.codes c = some r → E'.codes c = some r)
+    (hz : ∀ d, E'.inflate (E.deflate d) = some d) :
+    decodeMsg E' (encodeMsg E m) = .ok (carried m) := by
+  let E2 : Env := { routes := E.routes, codes := E'.codes, deflate := E.deflate, inflate := E'.inflate, compress := E.compress }
+  have h1 : encodeMsg E m = encodeMsg E2 m := rfl
+  have h2 : ∀ bs, decodeMsg E' bs = decodeMsg E2 bs := fun _ => rfl
+  rw [h1, h2]
+  exact decode_encode E2 m hid hrl (fun r c h => ⟨hgrow c r (hdict r c h).1, (hdict r c h).2⟩) hz
+
+/-- `SetDictionary` only adds: after any further successful or failed call, every old code still decodes to its
+route (so `hgrow` above holds along every run of the process). -/
+theorem SetDictionary_grows (trim : Bytes → Bytes) (d : Dict) (es : List (Bytes × Nat)) (hw : DictWF d)
+    (hc : ∀ e ∈ es, e.2 < 65536) :
+    ∀ c r, d.codes c = some r → (setDictionary trim d es).1.codes c = some r := by
+  induction es generalizing d with
+  | nil => intro c r h; simpa [setDictionary] using h
+  | cons e es ih =>
+    intro c r h
+    obtain ⟨k, v⟩ := e
+    unfold setDictionary
+    cases ha : d.add1 (trim k) v with
+    | none => simpa using h
+    | some d' =>
+      simp only
+      have hw' : DictWF d' := add1_wf d d' (trim k) v hw (hc (k, v) (by simp)) ha
+      apply ih d' hw' (fun e he => hc e (by simp [he]))
+      have hd' : d' = d ++ [(trim k, v)] := by
+        unfold Dict.add1 at ha
+        split at ha
+        · cases ha
+        · split at ha
+          · cases ha
+          · exact (Option.some.inj ha).symm
+      rw [hd', codes_append, h]
+      rfl
+
+/-- non-vacuity: spelled-out route at encode time, the same route in the dictionary at decode time -/
+example : decodeMsg { E0 with codes := fun c => if c = 7 then some [97] else none } (encodeMsg E0 ⟨.notify, 0, [97], [5], false⟩)
+    = .ok ⟨.notify, 0, [97], [5], false⟩ :=
+  decode_encode_dictionary_growth E0 _ _ (by decide) (by decide) (by simp [E0]) (by simp [E0]) (by simp [E0])
+
+/-- **The packet layer's index/slice expressions are checked too** (`ParseHeader`, utils.go: `header[0]`, `header[1:]`
+behind `len(header) != HeadLength`; everything else in the packet decoder and in `GetNextMessage` goes through
+`bytes.Buffer.Next`/`ReadAll`, which clamp): with every access checked (`none` = Go panic) the function never fails
+an access and is the `parseHeader` used throughout — for EVERY byte string. -/
+theorem parseHeader_checked_total (h : Bytes) : parseHeaderC h = some (parseHeader h) := by
+  unfold parseHeaderC parseHeader idx? slice?
+  match h with
+  | [] => simp
+  | [_] => simp
+  | [_, _] => simp
+  | [_, _, _] => simp
+  | [t, a, b, c] => simp [bytesToInt]; split <;> simp_all <;> (split <;> simp_all)
+  | _ :: _ :: _ :: _ :: _ :: _ => simp
+
+
+/-! ### results of `Decode` are values: the memory model -/
+
+/-- **What `Decode` returned stays what it was** (non-vacuous form of `earlier_results_unchanged`; review finding 3).
+In the memory model — packets are SLICES into heap buffers — a `Decode` call on any buffer returns slices that read
+as exactly the packets of the pure decoder, and keep reading so after ANY sequence of later operations: the caller
+overwriting (recycling) its own buffers including the one it handed to this very call, allocating, and further
+`Decode` calls on any buffer.  It holds because `Decode` copies its input into a buffer of its own, every call gets a
+FRESH one, and nothing ever writes a decoder-private buffer (`step_keeps_decoder`); a decoder that pointed into its
+input, or reused one private buffer across calls, would violate it. -/
+theorem decode_results_are_values (h : Heap) (inp : Nat) (b : Buf) (hin : h[inp]? = some b) (ops : List HOp) :
+    match (decodeH h inp).2, decodePackets b.bytes with
+    | .ok rs, .ok ps => rs.map (ops.foldl Heap.step (decodeH h inp).1).deref = ps.map some
+    | .error e, .error e' => e = e'
+    | _, _ => False := by
+  have hH : decodeH h inp = (h ++ [⟨.decoder, b.bytes⟩], decodeRefs h.length b.bytes) := by
+    unfold decodeH; rw [hin]
+  rw [hH]
+  simp only
+  have hag := decodeRefs_agree h.length b.bytes
+  cases hr : decodeRefs h.length b.bytes with
+  | error e =>
+    rw [hr] at hag
+    cases hp : decodePackets b.bytes with
+    | error e' => rw [hp] at hag; simpa [RefsAgree] using hag
+    | ok ps => rw [hp] at hag; simp [RefsAgree] at hag
+  | ok rs =>
+    rw [hr] at hag
+    cases hp : decodePackets b.bytes with
+    | error e' => rw [hp] at hag; simp [RefsAgree] at hag
+    | ok ps =>
+      rw [hp] at hag
+      simp only [RefsAgree] at hag
+      simp only
+      have hk := steps_keep_decoder ops (h ++ [⟨.decoder, b.bytes⟩]) h.length b.bytes (by simp)
+      have hbuf := decodeRefs_buf h.length b.bytes rs hr
+      rw [← hag, List.map_map]
+      apply List.map_congr_left
+      intro r hrm
+      simp only [Heap.deref, Function.comp, hbuf r hrm, hk, Option.map_some]
+
+/-- non-vacuity: one frame decoded from caller buffer 0, then the caller overwrites buffer 0 and decodes it again -/
+example : let h : Heap := [⟨.caller, [4, 0, 0, 2, 7, 8]⟩]
+    ([HOp.write 0 [4, 0, 0, 2, 1, 1], .decode 0].foldl Heap.step (decodeH h 0).1).deref ⟨4, 1, 4, 2⟩ = some ⟨4, [7, 8]⟩ := by
+  decide
+
+/-- … whereas a slice into the CALLER's buffer (what a decoder without the private copy would return) changes -/
+example : let h : Heap := [⟨.caller, [4, 0, 0, 2, 7, 8]⟩]
+    ([HOp.write 0 [4, 0, 0, 2, 1, 1]].foldl Heap.step h).deref ⟨4, 0, 4, 2⟩ = some ⟨4, [1, 1]⟩ := by decide
+
 end Cell2v.Props.C06
